@@ -113,6 +113,9 @@ def correspond(ctx, corr, model_ok):
         corr.evaluations += 1
     corr.oracle_failures.extend(routed_oracle())
     corr.count('routed responder (future / task) cancelled', 4)
+    from harness.props import c20
+    corr.oracle_failures.extend(c20.disposal_oracle())
+    corr.count('Rx clients: observer disposed at every moment (subscribing turn .. after the last element)', 78)
     if model_ok:
         E.trace_corr(corr, runs, KEEP, KEYS, 'C09 cancellation projection vs model/Endpoint.v')
     corr.rule = ('legal random histories with cancellation by either side at every moment (60% of local cancels share '
@@ -132,6 +135,8 @@ def search(ctx, budget):
         for case in source_cases(ctx, 60):
             found.extend(source_oracle(case, run_cancel_source(*case)))
         found.extend(routed_oracle())
+        from harness.props import c20
+        found.extend(c20.disposal_oracle())
     return found
 
 
@@ -139,6 +144,9 @@ def replay(obj):
     case = obj.get('case') or obj
     if 'routed_case' in case:
         return bool(routed_oracle())
+    if 'rx_case' in case:
+        from harness.props import c20
+        return bool(c20.oracle(c20.run_case(case['rx_case'])))
     if 'source_case' in case:
         c = tuple(case['source_case'])
         return bool(source_oracle(c, run_cancel_source(*c)))
@@ -268,6 +276,12 @@ def source_oracle(case, r):
         out.append(dict(base, what='still-busy-400-iterations-after-cancel'))
     if r['pulled_after_cancel'] > 0:
         out.append(dict(base, what='source-pulled-after-cancel', count=r['pulled_after_cancel']))
+    if kind in ('gen', 'agen') and n_items >= 50 and credit >= n_items and r['pulled_total'] > 4 * ticks + 8:
+        # the generator sources hand the loop back between elements, so a CANCEL arriving `ticks` iterations after the request
+        # finds about that many elements produced; a source that runs through its whole credit in one go cannot be stopped
+        # at any moment in between (generous bound: small batches are fine, the whole credit is not)
+        out.append(dict(base, what='source-ran-through-its-credit-before-the-cancel-could-be-handled',
+                        pulled=r['pulled_total'], iterations_before_cancel=ticks))
     if r['frames_after_cancel']:
         out.append(dict(base, what='frames-after-cancel', frames=r['frames_after_cancel'][:5]))
     if r['errors']:
